@@ -4,3 +4,16 @@ open Verif.Props.C09
 #print axioms xml_output_wellformed
 #print axioms svg_path_output_parses
 #print axioms svg_path_lex_roundtrip
+#print axioms xml_lex_roundtrip
+#print axioms xml_output_relexes_partial
+#print axioms xml_output_relexes_counterexample
+#print axioms xml_second_pass_defined
+#print axioms xml_idempotent_counterexample
+#print axioms xml_svg_bracket_count
+#print axioms xml_svg_text_wellformed
+#print axioms xml_svg_text_wellformed_sub
+#print axioms xml_svg_style_text_counterexample
+#print axioms xml_svg_cdata_wellformed
+#print axioms xml_svg_cdata_kept_counterexample
+#print axioms xml_svg_attr_wellformed
+#print axioms xml_svg_attr_contract_needed
